@@ -79,6 +79,7 @@ package store
 //@   ensures inv: contigDisk(bs) && memDesc(bs)
 //@   ensures tip: pHeight == block.Header.Height
 //@   atcall DB.Set crash: contigDisk(bs)
+//@   atcall DB.Set partsfirst: forall(p, 0, blockParts.total, dbhas(bs.db, calcBlockPartKey(block.Header.Height, p)))
 //@   atcall BlockStore.saveState crash: contigDisk(bs)
 //@   atcall BlockStore.saveState complete: dbhas(bs.db, calcBlockMetaKey(block.Header.Height)) && dbhas(bs.db, calcSeenCommitKey(block.Header.Height)) && dbhas(bs.db, calcBlockCommitKey(block.Header.Height - 1))
 //@   loop 1 invariant parts: 0 <= i && forall(p, 0, i, dbhas(bs.db, calcBlockPartKey(block.Header.Height, p))) && contigDisk(bs) && memDesc(bs) && forall(k, old(dbhas(bs.db, k)) ==> dbhas(bs.db, k))
@@ -94,9 +95,9 @@ package store
 //@   atcall Batch.WriteSync crash: contigDisk(bs)
 //@   loop 1 invariant rng: old(bs.base) <= h && h <= height && height <= pHeight && pBase <= h
 //@   loop 1 invariant inv: contigDisk(bs) && memDesc(bs)
-//@   loop 1 invariant pending: forall(g, g >= h ==> (dbbatchop(batch, calcBlockMetaKey(g)) != 2 && dbbatchop(batch, calcSeenCommitKey(g)) != 2 && dbbatchop(batch, calcBlockCommitKey(g)) != 2))
+//@   loop 1 invariant pending: forall(g, g >= h ==> (dbbatchop(batch, calcBlockMetaKey(g)) == 0 && dbbatchop(batch, calcSeenCommitKey(g)) == 0 && dbbatchop(batch, calcBlockCommitKey(g)) == 0))
 //@   loop 1 invariant kept: forall(g, g >= h ==> ((dbhas(bs.db, calcBlockMetaKey(g)) <==> old(dbhas(bs.db, calcBlockMetaKey(g)))) && (dbhas(bs.db, calcSeenCommitKey(g)) <==> old(dbhas(bs.db, calcSeenCommitKey(g))))))
 //@   loop 2 invariant rng: old(bs.base) <= h && h < height && height <= pHeight && pBase <= h && 0 <= p
 //@   loop 2 invariant inv: contigDisk(bs) && memDesc(bs)
-//@   loop 2 invariant pending: forall(g, g > h ==> (dbbatchop(batch, calcBlockMetaKey(g)) != 2 && dbbatchop(batch, calcSeenCommitKey(g)) != 2 && dbbatchop(batch, calcBlockCommitKey(g)) != 2))
+//@   loop 2 invariant pending: forall(g, g > h ==> (dbbatchop(batch, calcBlockMetaKey(g)) == 0 && dbbatchop(batch, calcSeenCommitKey(g)) == 0 && dbbatchop(batch, calcBlockCommitKey(g)) == 0))
 //@   loop 2 invariant kept: forall(g, g >= h ==> ((dbhas(bs.db, calcBlockMetaKey(g)) <==> old(dbhas(bs.db, calcBlockMetaKey(g)))) && (dbhas(bs.db, calcSeenCommitKey(g)) <==> old(dbhas(bs.db, calcSeenCommitKey(g))))))
